@@ -3,7 +3,7 @@ CONSTANT R = 2
 CONSTANT P2Origin = TRUE
 CONSTANT Impl = "tertiary"
 CONSTANT M1Order = "n1_x_b2"
-CONSTANT Slice = FALSE
+CONSTANT Slice = TRUE
 INVARIANT TypeOK
 INVARIANT UndefinedIffDegenerate
 INVARIANT LatticeOctant
@@ -14,4 +14,5 @@ INVARIANT OracleMirror
 INVARIANT OracleRotation
 INVARIANT OracleTranslation
 INVARIANT OracleNeverOrigin
+INVARIANT OracleAxisGap
 CHECK_DEADLOCK FALSE
